@@ -222,7 +222,14 @@ def verify(run, E, contract, prefix=None, tier=None, crosscheck=True, known=None
     own = [k for k in E.summaries if "productmd.%s.%s.%s" % (k[0][0], k[0][1], k[1]) == name]
     saved = dict((k, E.summaries.pop(k)) for k in own)
     try:
-        paths = run_contract(E, contract)
+        try:
+            paths = run_contract(E, contract)
+        except Unsupported:
+            raise
+        except Exception as ex:     # noqa: BLE001 -- contract support code (summaries, pattern extraction) met code it was not written for
+            # the function left what the contract machinery can handle: same fallback as an unsupported construct (bounded search for a
+            # real failing input, else undecided), and the remaining obligations of the check still run
+            raise Unsupported("contract machinery failed on this tree (%s: %s)" % (type(ex).__name__, str(ex)[:160]))
     except Unsupported as u:
         E.summaries.update(saved)
         # undecided: the function left the supported subset.  Fall back to the bounded search for a REAL failing input of
